@@ -186,6 +186,21 @@ def main():
                             d = r.get_json(force=True)
                             rec['equal'] = (d['x'] == np.asarray(lib[:code.n]).tolist() and d['z'] == np.asarray(lib[code.n:]).tolist()) \
                                 or dec_name in ('SweepMatch', 'RotatedSweepMatch')
+                        if dec_name in ('BP-OSD', 'MBP') and r.status_code == 200:
+                            # the next request differs ONLY in the belief-propagation sliders: it must be answered with the new values
+                            bp2 = {1: 20, 2: 20, 3: 1, 10: 1}[bp_iter]
+                            al2, be2 = (0.75, 0.1) if (alpha, beta) == (0.4, 0) else (0.4, 0)
+                            rr_ = client.post('/decode', json=dict(body, max_bp_iter=bp2, alpha=al2, beta=be2))
+                            kw2 = {'max_bp_iter': bp2, 'osd_order': 0} if dec_name == 'BP-OSD' else {'max_bp_iter': bp2, 'alpha': al2, 'beta': be2}
+                            lib2 = G.decoders[dec_name](code, em, p_dec, **kw2).decode(np.array(syn))
+                            if rr_.status_code != 200:
+                                rec['equal'] = False
+                                rec['second_request'] = 'status %d' % rr_.status_code
+                            else:
+                                d2_ = rr_.get_json(force=True)
+                                if not (d2_['x'] == np.asarray(lib2[:code.n]).tolist() and d2_['z'] == np.asarray(lib2[code.n:]).tolist()):
+                                    rec['equal'] = False
+                                    rec['second_request'] = {'max_bp_iter': bp2, 'alpha': al2, 'beta': be2}
                         r2 = client.post('/new-errors', json=dict(body, p=p_new))
                         rec['status_new'] = r2.status_code
                         lib_err = em.generate(code, p_new, rng=real_rng(1234))
